@@ -10,11 +10,12 @@ DIR=store; [ "$PKG" = "utils" ] && DIR=utils; [ "$PKG" = "gobeansdb" ] && DIR=go
 cp $OUT/demo_test.go $DIR/zz_seeded_demo_test.go
 NAMES=$(grep -o "^func Test[A-Za-z0-9_]*" $DIR/zz_seeded_demo_test.go | sed 's/func //' | paste -sd'|')
 BASE=$(mktemp -d /tmp/seedbase.XXXX)
+TAGS=""; grep -q "^//go:build verif" $OUT/demo_test.go && TAGS="-tags verif"   # a demo may use the hook points of /repo
 BFLAG=""; [ "$DIR" = "store" ] && BFLAG="-base $BASE"
-go test -vet=off -count=1 -run "^($NAMES)\$" ./$DIR/ $BFLAG > $OUT/confirm_clean.log 2>&1; RC_CLEAN=$?
+go test $TAGS -vet=off -count=1 -run "^($NAMES)\$" ./$DIR/ $BFLAG > $OUT/confirm_clean.log 2>&1; RC_CLEAN=$?
 git apply $OUT/patch.diff || { echo "patch does not apply"; exit 2; }
 go build ./... > $OUT/confirm_build.log 2>&1; RC_BUILD=$?
-go test -vet=off -count=1 -run "^($NAMES)\$" ./$DIR/ $BFLAG > $OUT/confirm_patched.log 2>&1; RC_PATCHED=$?
+go test $TAGS -vet=off -count=1 -run "^($NAMES)\$" ./$DIR/ $BFLAG > $OUT/confirm_patched.log 2>&1; RC_PATCHED=$?
 rm -f $DIR/zz_seeded_demo_test.go
 go test -vet=off -count=1 ./store/ -base $BASE > $OUT/confirm_suite_store.log 2>&1; RC_S1=$?
 go test -vet=off -count=1 ./memcache/ ./cmem/ ./utils/ ./quicklz/ ./loghub/ > $OUT/confirm_suite_rest.log 2>&1; RC_S2=$?
